@@ -36,6 +36,34 @@ def run(ck: Check, repo: Repo) -> None:
     _encoder_hook(ck, repo)
 
 
+# ---------------------------------------------------------------- roles of locals, derived by def-use (never by spelling)
+def _def_values(cfg: CFG, n: Optional[Node], name: str) -> List[Tuple[Optional[ast.AST], Node]]:
+    """(value, definition node) for every definition of local `name` reaching n; value None = not a plain binding."""
+    if n is None:
+        return []
+    return [(cfg.value_of_def(d, name), d) for d in cfg.defs_reaching(n, name)]
+
+
+def _sources(cfg: CFG, n: Optional[Node], e: ast.AST) -> List[Optional[ast.AST]]:
+    """What expression `e` stands for at n: a local name stands for the values bound by its reaching definitions."""
+    if isinstance(e, ast.Name) and n is not None:
+        dv = [(v, d) for v, d in _def_values(cfg, n, e.id) if d.kind != "entry"]
+        if dv:
+            return [v for v, _ in dv]
+    return [e]
+
+
+def _unpacked(v: Optional[ast.AST], idx: int) -> Optional[ast.AST]:
+    """The unpacked expression if v is 'element idx of a tuple-unpacking assignment' (see CFG.value_of_def)."""
+    if isinstance(v, ast.Subscript) and hasattr(v, "_unpack_len") and const_value(v.slice) == idx:
+        return v.value
+    return None
+
+
+def _name_in(e: Optional[ast.AST], names) -> bool:
+    return isinstance(e, ast.Name) and e.id in names
+
+
 def _store_nodes(cfg: CFG, fn: Fn) -> List[Node]:
     out = []
     for c in calls_in(fn.node):
@@ -100,40 +128,90 @@ def _reinit_opt_provenance(ck: Check, repo: Repo) -> None:
             for a in ast.walk(inner[0]):
                 if isinstance(a, ast.Assign) and dotted(a.targets[0]) == nets.id:
                     vals.append(a.value)
-        ok = bool(vals) and all("getattr(individual" in ast.unparse(v) and "opt.networks" not in ast.unparse(v) for v in vals)
+        # built from getattr(individual, ...) and never from the `.networks` the old wrapper holds
+        ok = bool(vals) and all("getattr(individual" in ast.unparse(v) and not any(isinstance(x, ast.Attribute) and x.attr == "networks" for x in ast.walk(v)) for v in vals)
         ck.ob("C02.2", fn, c, ok, "networks of the new optimizer = getattr(individual, <network name>) (the live, possibly just replaced, modules)",
               detail=f"networks built from {[short(v, 70) for v in vals]}")
         cls_ = get_kw(c, "optimizer_cls", 0)
         ck.ob("C02.2", fn, c, cls_ is not None and "get_optimizer_cls" in ast.unparse(cls_), "the optimizer class comes from the registry entry")
     sets = [c for c in calls_in(fn.node, nested=True) if call_name(c) == "setattr" and dotted(c.args[0]) == "individual"]
-    ck.ob("C02.2", fn, sets[0] if sets else fn.node, len(sets) == 1 and dotted(sets[0].args[1]) == "config.name",
+    # the registry entry is the first parameter of the helper that contains the store
+    entry = [f.args.args[0].arg for f in inner if f.args.args and sets and any(x is sets[0] for x in ast.walk(f))]
+    ck.ob("C02.2", fn, sets[0] if sets else fn.node, len(sets) == 1 and bool(entry) and dotted(sets[0].args[1]) == f"{entry[0]}.name",
           "the new wrapper is stored under the optimizer's registered attribute name")
 
 
 def _shared_rebuilt(ck: Check, repo: Repo) -> None:
     fn = repo.fn(MUT, "Mutations.mutation")
     cfg = CFG(fn.node)
-    loops = [n for n in cfg.live_nodes() if n.kind == "for" and "population" in ast.unparse(n.ast.iter)]
+    loops = [n for n in cfg.live_nodes() if n.kind == "for" and any(isinstance(x, ast.Name) and x.id == "population" for x in ast.walk(n.ast.iter))]
     ck.ob("C02.3", fn, fn.node, len(loops) == 1, "one pass over the population", construct="population loop in mutation()")
     if len(loops) != 1:
         return
     L = loops[0]
     it = L.ast.iter
-    ok = isinstance(it, ast.Call) and call_name(it) == "zip" and [dotted(a) for a in it.args] == ["mutation_choice", "population"]
+    # roles: the loop variable paired with parameter `population` is the individual, the other one the sampled mutation;
+    # the list zipped with the population is the one drawn by <rng>.choice(...) (element updates allowed)
+    tv = [e.id for e in L.ast.target.elts] if isinstance(L.ast.target, ast.Tuple) and all(isinstance(e, ast.Name) for e in L.ast.target.elts) else []
+    zargs = list(it.args) if isinstance(it, ast.Call) and call_name(it) == "zip" and not it.keywords else []
+    ok = len(zargs) == 2 and len(tv) == 2 and sorted(dotted(a) == "population" for a in zargs) == [False, True]
+    mut_v, ind_v = "?mutation", "?individual"
+    if ok:
+        pi = [dotted(a) for a in zargs].index("population")
+        ind_v, mut_v = tv[pi], tv[1 - pi]
+        ch = zargs[1 - pi]
+        dv = _def_values(cfg, L, ch.id) if isinstance(ch, ast.Name) else []
+        drawn = [v for v, _ in dv if isinstance(v, ast.Call) and last_attr(v) == "choice"]
+        rest = [(v, d) for v, d in dv if not (isinstance(v, ast.Call) and last_attr(v) == "choice")]
+        ok = bool(drawn) and all(v is None and isinstance(d.ast, ast.Assign) and all(isinstance(t, ast.Subscript) and dotted(t.value) == ch.id for t in d.ast.targets)
+                                 for v, d in rest)
     ck.ob("C02.3", fn, it, ok, "mutation k is applied to individual k (zip(mutation_choice, population))")
+    # every name the individual goes by inside the loop: the loop variable, its aliases and what the mutation function returned for it
+    IND: Set[str] = {ind_v}
+    grew = True
+    while grew:
+        grew = False
+        for a in ast.walk(L.ast):
+            if not (isinstance(a, (ast.Assign, ast.AnnAssign)) and a.value is not None):
+                continue
+            v = a.value
+            if _name_in(v, IND) or (isinstance(v, ast.Call) and _name_in(v.func, {mut_v}) and len(v.args) == 1 and _name_in(v.args[0], IND)):
+                for t in (a.targets if isinstance(a, ast.Assign) else [a.target]):
+                    if isinstance(t, ast.Name) and t.id not in IND:
+                        IND.add(t.id)
+                        grew = True
     body_nodes = {n.id for n in cfg.live_nodes() if n.stmt is not None and any(x is n.stmt for b in L.ast.body for x in ast.walk(b))}
-    apps = [cfg.node_of(c) for c in calls_in(L.ast) if call_name(c) == "mutated_population.append"]
-    ok = len(apps) == 1 and apps[0] is not None and cfg.postdominates(apps[0], cfg.node_of(L.ast.body[0]) or L) and not cfg.guards_at(apps[0])
+    # the accumulator is the list the individual is appended to
+    appends = [c for c in calls_in(L.ast) if isinstance(c.func, ast.Attribute) and c.func.attr == "append" and isinstance(c.func.value, ast.Name)]
+    acc = {c.func.value.id for c in appends if len(c.args) == 1 and _name_in(c.args[0], IND)}
+    app_calls = [c for c in appends if c.func.value.id in acc]
+    apps = [cfg.node_of(c) for c in app_calls]
+    ok = len(apps) == 1 and len(acc) == 1 and apps[0] is not None and _name_in(app_calls[0].args[0] if len(app_calls[0].args) == 1 else None, IND) \
+        and cfg.postdominates(apps[0], cfg.node_of(L.ast.body[0]) or L) and not cfg.guards_at(apps[0])
     ck.ob("C02.3", fn, apps[0].ast if apps and apps[0] else L.ast, ok, "exactly one individual is appended per iteration, unconditionally (size and order kept)")
     rets = [n for n in cfg.live_nodes() if n.kind == "stmt" and isinstance(n.ast, ast.Return)]
-    ck.ob("C02.3", fn, rets[0].ast if rets else fn.node, bool(rets) and all(dotted(r.ast.value) == "mutated_population" for r in rets), "the mutated population is what is returned")
+    ck.ob("C02.3", fn, rets[0].ast if rets else fn.node, bool(rets) and len(acc) == 1 and all(_name_in(r.ast.value, acc) for r in rets), "the mutated population is what is returned")
     # the mutation call
-    mc = [c for c in calls_in(L.ast) if isinstance(c.func, ast.Name) and c.func.id == "mutation" and len(c.args) == 1]
-    ck.ob("C02.3", fn, mc[0] if mc else L.ast, len(mc) == 1 and dotted(mc[0].args[0]) == "individual", "the sampled mutation function is applied to the individual")
+    mc = [c for c in calls_in(L.ast) if isinstance(c.func, ast.Name) and c.func.id == mut_v and len(c.args) == 1]
+    ck.ob("C02.3", fn, mc[0] if mc else L.ast, len(mc) == 1 and _name_in(mc[0].args[0], IND), "the sampled mutation function is applied to the individual")
     # shared networks
-    sets = [c for c in calls_in(L.ast) if call_name(c) == "setattr" and dotted(c.args[0]) == "individual"]
-    ck.ob("C02.3", fn, sets[0] if sets else L.ast, len(sets) == 1 and dotted(sets[0].args[1]) == "shared_name", "each shared network attribute is replaced")
+    sets = [c for c in calls_in(L.ast) if call_name(c) == "setattr" and c.args and _name_in(c.args[0], IND)]
+
+    def group_loops(c: ast.Call):
+        """(group variable, shared-name variable, groups loop) of the loops `for g in <..>.groups: ... for s in g.shared:` around c."""
+        encl = [l for l in ast.walk(L.ast) if isinstance(l, ast.For) and l is not L.ast and any(x is c for x in ast.walk(l))]
+        for gl in encl:
+            if isinstance(gl.iter, ast.Attribute) and gl.iter.attr == "groups" and isinstance(gl.target, ast.Name):
+                for sl in encl:
+                    if sl is not gl and any(x is sl for x in ast.walk(gl)) and isinstance(sl.target, ast.Name) and dotted(sl.iter) == f"{gl.target.id}.shared":
+                        return gl.target.id, sl.target.id, gl
+                return gl.target.id, None, gl
+        return None, None, None
+
+    ck.ob("C02.3", fn, sets[0] if sets else L.ast, len(sets) == 1 and len(sets[0].args) == 3 and group_loops(sets[0])[1] is not None
+          and _name_in(sets[0].args[1], {group_loops(sets[0])[1]}), "each shared network attribute is replaced")
     for c in sets:
+        grp_v, shared_v, _gl = group_loops(c)
         n = cfg.node_of(c)
         v = c.args[2]
         defs = cfg.defs_reaching(n, dotted(v)) if isinstance(v, ast.Name) else []
@@ -151,20 +229,27 @@ def _shared_rebuilt(ck: Check, repo: Repo) -> None:
             rn = cfg.node_of(from_reinit[0])
             edefs = cfg.defs_reaching(rn, dotted(a0)) if isinstance(a0, ast.Name) else []
             vals = [cfg.value_of_def(d, a0.id) for d in edefs]
-            ok = bool(vals) and all(isinstance(x, ast.Call) and call_name(x) == "getattr" and dotted(x.args[0]) == "individual" and dotted(x.args[1]) == "net_group.eval" for x in vals)
+            ok = bool(vals) and grp_v is not None and all(isinstance(x, ast.Call) and call_name(x) == "getattr" and len(x.args) == 2 and _name_in(x.args[0], IND)
+                                                        and dotted(x.args[1]) == f"{grp_v}.eval" for x in vals)
             ck.ob("C02.3", fn, from_reinit[0], ok, "the shared network is rebuilt from the (mutated) eval network of the same group of the same individual",
                   detail=f"source: {[short(x, 70) for x in vals]}")
         # loops: for net_group in registry.groups / for shared_name in net_group.shared, guarded by shared is not None only
         encl = [l for l in ast.walk(L.ast) if isinstance(l, ast.For) and any(x is c for x in ast.walk(l))]
         its = [ast.unparse(l.iter) for l in encl if l is not L.ast]
-        ck.ob("C02.3", fn, c, "registry.groups" in its and "net_group.shared" in its, "every shared network of every registered group is visited", detail=f"enclosing loops: {its}")
+        ck.ob("C02.3", fn, c, grp_v is not None and shared_v is not None and (isinstance(_gl.iter.value, ast.Name) or (isinstance(_gl.iter.value, ast.Attribute) and _gl.iter.value.attr == "registry")),
+              "every shared network of every registered group is visited", detail=f"enclosing loops: {its}")
         from ..domains import conjuncts
         atoms = [(ast.unparse(a), apol) for g, pol, _ in cfg.guards_at(n) for a, apol in conjuncts(g, pol)]
-        ck.ob("C02.3", fn, c, all((a == "net_group.shared is not None" and apol) or "accelerator" in a or "torch_compiler" in a for a, apol in atoms),
+        ck.ob("C02.3", fn, c, all((a == f"{grp_v}.shared is not None" and apol) or "accelerator" in a or "torch_compiler" in a for a, apol in atoms),
               "no condition other than `shared is not None` can skip the rebuild", detail=f"guards: {atoms}")
-    regsrc = [n for n in cfg.live_nodes() if n.kind == "stmt" and isinstance(n.ast, ast.Assign) and dotted(n.ast.targets[0]) == "registry"]
-    ck.ob("C02.3", fn, regsrc[0].ast if regsrc else L.ast, bool(regsrc) and all(dotted(r.ast.value) == "individual.registry" for r in regsrc), "groups are read from the individual's own registry")
-    hooks = [cfg.node_of(c) for c in calls_in(L.ast) if call_name(c) == "individual.mutation_hook"]
+    # the registry whose groups are walked: what `<x>.groups` of the group loops stands for
+    gloops = [l for l in ast.walk(L.ast) if isinstance(l, ast.For) and l is not L.ast and isinstance(l.iter, ast.Attribute) and l.iter.attr == "groups"]
+    regnames = {l.iter.value.id for l in gloops if isinstance(l.iter.value, ast.Name)}
+    regsrc = [n for n in cfg.live_nodes() if n.kind == "stmt" and isinstance(n.ast, ast.Assign) and dotted(n.ast.targets[0]) in regnames]
+    own = {f"{i}.registry" for i in IND}
+    ck.ob("C02.3", fn, regsrc[0].ast if regsrc else L.ast, bool(gloops) and all(dotted(r.ast.value) in own for r in regsrc)
+          and all(v is not None and dotted(v) in own for l in gloops for v in _sources(cfg, cfg.node_of(l.iter), l.iter.value)), "groups are read from the individual's own registry")
+    hooks = [cfg.node_of(c) for c in calls_in(L.ast) if isinstance(c.func, ast.Attribute) and c.func.attr == "mutation_hook" and _name_in(c.func.value, IND)]
     ok = len(hooks) == 1 and hooks[0] is not None and not cfg.guards_at(hooks[0]) and all(cfg.dominates(hooks[0], a) for a in apps if a) \
         and all(hooks[0].id in cfg.reachable_from(cfg.node_of(c)) for c in sets)
     ck.ob("C02.3", fn, hooks[0].ast if hooks and hooks[0] else L.ast, ok, "the individual's mutation hooks run on every iteration, after shared networks were rebuilt")
@@ -179,10 +264,19 @@ def _shared_rebuilt(ck: Check, repo: Repo) -> None:
     loads = [c for c in calls_in(rf.node, nested=True) if last_attr(c) in ("load_state_dict", "load_state_dicts")]
     ck.floor("C02.3", len(loads), 2, "state loading in reinit_from_mutated", fn=rf)
     src = ast.unparse(rf.node)
-    ck.ob("C02.3", rf, rf.node, "ind_shared.load_state_dict(offspring.state_dict()" in src and has(src, '$state_dicts = [$offspring.state_dict() for $offspring in $offspring]'),
-          "the re-created network receives the state dict of the same offspring", construct="reinit_from_mutated: state transfer")
     rets = [n for n in rcfg.live_nodes() if n.kind == "stmt" and isinstance(n.ast, ast.Return)]
-    ck.ob("C02.3", rf, rets[0].ast if rets else rf.node, bool(rets) and all(dotted(r.ast.value) == "ind_shared" for r in rets), "the new network (not the offspring) is returned")
+
+    def recreated(v: Optional[ast.AST]) -> bool:
+        return (isinstance(v, ast.Call) and any(v is c for c in rm)) or (isinstance(v, ast.ListComp) and any(v.elt is c for c in rm))
+
+    # role: the new network is the local every reaching definition of which is self.reinit_module(...) (or a list of those)
+    new_net = {r.ast.value.id for r in rets if isinstance(r.ast.value, ast.Name) and _def_values(rcfg, r, r.ast.value.id)
+               and all(recreated(v) for v, _ in _def_values(rcfg, r, r.ast.value.id))}
+    single = [c for c in loads if c.func.attr == "load_state_dict" and _name_in(c.func.value, new_net) and c.args and isinstance(c.args[0], ast.Call)
+              and dotted(c.args[0].func) == "offspring.state_dict" and not c.args[0].args]
+    ck.ob("C02.3", rf, rf.node, bool(single) and has(src, '$state_dicts = [$o.state_dict() for $o in offspring]'),
+          "the re-created network receives the state dict of the same offspring", construct="reinit_from_mutated: state transfer")
+    ck.ob("C02.3", rf, rets[0].ast if rets else rf.node, bool(rets) and all(_name_in(r.ast.value, new_net) for r in rets), "the new network (not the offspring) is returned")
     rmod = repo.fn(MUT, "Mutations.reinit_module")
     ck.ob("C02.3", rmod, rmod.node, has(rmod.node, 'return $module_cls(**$init_dict)'), "reinit_module instantiates the offspring's class with the given init_dict",
           construct="reinit_module")
@@ -203,7 +297,38 @@ def _critics_follow(ck: Check, repo: Repo) -> None:
     pn = cfg.node_of(pol[0])
     res = [k for k, _ in cfg.defs_at(pn)]
     ck.ob("C02.4", fn, pol[0], len(res) == 2, "the policy call yields (applied name, applied arguments)")
-    ck.ob("C02.4", fn, pol[0], len(pol[0].args) == 2 and dotted(pol[0].args[0]) == "policy_offspring" and dotted(pol[0].args[1]) == "mut_method", "the sampled method is applied to the policy offspring")
+
+    def from_offspring_call(e: Optional[ast.AST], n: Node, idx: int) -> bool:
+        """e is a local bound (on every path) to result idx of get_offspring_eval_modules(individual)."""
+        if not isinstance(e, ast.Name):
+            return False
+        dv = _def_values(cfg, n, e.id)
+        return bool(dv) and all(isinstance(_unpacked(v, idx), ast.Call) and call_name(_unpacked(v, idx)) == "get_offspring_eval_modules"
+                                and _unpacked(v, idx).args and dotted(_unpacked(v, idx).args[0]) == "individual" for v, _ in dv)
+
+    def policy_item(e: Optional[ast.AST], n: Optional[Node], idx: int) -> bool:
+        """e is a local bound to element idx (0 attribute name, 1 network) of the first item of the policy dictionary:
+        `<name>, <net> = list(<policy dict>.items())[0]`."""
+        if not isinstance(e, ast.Name) or n is None:
+            return False
+        dv = _def_values(cfg, n, e.id)
+        if not dv:
+            return False
+        for v, d in dv:
+            b = _unpacked(v, idx)
+            if not (isinstance(b, ast.Subscript) and const_value(b.slice) == 0 and isinstance(b.value, ast.Call) and call_name(b.value) == "list" and len(b.value.args) == 1):
+                return False
+            items = b.value.args[0]
+            if not (isinstance(items, ast.Call) and isinstance(items.func, ast.Attribute) and items.func.attr == "items" and not items.args
+                    and from_offspring_call(items.func.value, d, 0)):
+                return False
+        return True
+
+    pa = pol[0].args
+    sampled = len(pa) == 2 and isinstance(pa[1], ast.Name) and bool(_def_values(cfg, pn, pa[1].id)) and all(
+        isinstance(v, ast.Call) and last_attr(v) == "get_architecture_mut_method" and v.args and isinstance(pa[0], ast.Name) and _name_in(v.args[0], {pa[0].id})
+        for v, _ in _def_values(cfg, pn, pa[1].id))
+    ck.ob("C02.4", fn, pol[0], len(pa) == 2 and policy_item(pa[0], pn, 1) and sampled, "the sampled method is applied to the policy offspring")
     if len(res) == 2:
         o = oth[0]
         on = cfg.node_of(o)
@@ -211,7 +336,8 @@ def _critics_follow(ck: Check, repo: Repo) -> None:
         ck.ob("C02.4", fn, o, ok, "every other eval network receives the name and the arguments of the mutation actually applied to the policy",
               detail=f"passes ({', '.join(short(a, 30) for a in o.args[1:])}); policy call defines {res}")
         loop = [l for l in ast.walk(fn.node) if isinstance(l, ast.For) and any(x is o for x in ast.walk(l))][0]
-        ck.ob("C02.4", fn, loop.iter, ast.unparse(loop.iter) == "offspring_evals.items()", "the loop covers every non-policy eval group")
+        ck.ob("C02.4", fn, loop.iter, isinstance(loop.iter, ast.Call) and isinstance(loop.iter.func, ast.Attribute) and loop.iter.func.attr == "items" and not loop.iter.args
+              and from_offspring_call(loop.iter.func.value, cfg.node_of(loop.iter), 1), "the loop covers every non-policy eval group")
         tvars = [t.id for t in loop.target.elts] if isinstance(loop.target, ast.Tuple) else []
         ck.ob("C02.4", fn, o, len(tvars) == 2 and dotted(o.args[0]) == tvars[1], "the mutation is applied to the network of that group")
         stores = [c for c in calls_in(loop) if call_name(c) == "self.to_device_and_set_individual"]
@@ -221,7 +347,8 @@ def _critics_follow(ck: Check, repo: Repo) -> None:
         lab = [n for n in cfg.live_nodes() if n.kind == "stmt" and isinstance(n.ast, ast.Assign) and dotted(n.ast.targets[0]) == "individual.mut" and res[0] in ast.unparse(n.ast.value)]
         ck.ob("C02.4", fn, lab[0].ast if lab else fn.node, len(lab) == 1, "the individual reports the applied mutation name", construct="architecture_mutate label")
     pstore = [c for c in calls_in(fn.node) if call_name(c) == "self.to_device_and_set_individual" and c not in [x for l in ast.walk(fn.node) if isinstance(l, ast.For) for x in calls_in(l)]]
-    ck.ob("C02.4", fn, pstore[0] if pstore else fn.node, len(pstore) == 1 and [dotted(a) for a in pstore[0].args] == ["individual", "policy_name", "policy_offspring"],
+    ck.ob("C02.4", fn, pstore[0] if pstore else fn.node, len(pstore) == 1 and len(pstore[0].args) == 3 and dotted(pstore[0].args[0]) == "individual"
+          and policy_item(pstore[0].args[1], cfg.node_of(pstore[0]), 0) and policy_item(pstore[0].args[2], cfg.node_of(pstore[0]), 1) and _name_in(pstore[0].args[2], {dotted(pa[0])}),
           "the mutated policy is stored back under the policy's attribute name")
     hook = [cfg.node_of(c) for c in calls_in(fn.node) if call_name(c) == "individual.mutation_hook"]
     ck.ob("C02.4", fn, hook[0].ast if hook and hook[0] else fn.node, len(hook) == 1 and all(cfg.dominates(cfg.node_of(pstore[0]), hook[0]) for _ in [0]) if pstore else False,
@@ -386,4 +513,17 @@ VARIANTS = [
     ("ddpg-hook-unconditional", "agilerl/algorithms/ddpg.py", "            self.share_encoder_parameters()\n\n            # Need to register a mutation hook that does this after every mutation\n            self.register_mutation_hook(self.share_encoder_parameters)\n",
      "            self.share_encoder_parameters()\n\n        self.register_mutation_hook(self.share_encoder_parameters)\n", "fire", "C02.6"),
     ("td3-hook-misses-target", "agilerl/algorithms/td3.py", "                self.critic_target_2,\n            )", "            )", "fire", "C02.6"),
+    # roles derived by def-use instead of by the spelling of locals: each role still has to be played by the right value
+    ("zip-wrong-list", _MF, "zip(mutation_choice, population)", "zip(mutation_options, population)", "fire", "C02.3"),
+    ("zip-order-swapped-ok", _MF, "for mutation, individual in zip(mutation_choice, population):", "for individual, mutation in zip(population, mutation_choice):", "silent", None),
+    ("return-input-population", _MF, "        return mutated_population", "        return population", "fire", "C02.3"),
+    ("registry-of-first", _MF, "            registry = individual.registry\n", "            registry = population[0].registry\n", "fire", "C02.3"),
+    ("hook-of-first", _MF, "            individual.mutation_hook()\n", "            population[0].mutation_hook()\n", "fire", "C02.3"),
+    ("shared-stored-under-eval", _MF, "setattr(individual, shared_name, ind_shared)", "setattr(individual, net_group.eval, ind_shared)", "fire", "C02.3"),
+    ("reinit-returns-offspring", _MF, "        return ind_shared", "        return offspring", "fire", "C02.3"),
+    ("state-from-itself", _MF, "ind_shared.load_state_dict(offspring.state_dict(), strict=False)", "ind_shared.load_state_dict(ind_shared.state_dict(), strict=False)", "fire", "C02.3"),
+    ("loop-over-policy-dict", _MF, "for name, offsprings in offspring_evals.items():", "for name, offsprings in policy.items():", "fire", "C02.4"),
+    ("policy-store-sample", _MF, "self.to_device_and_set_individual(individual, policy_name, policy_offspring)", "self.to_device_and_set_individual(individual, policy_name, sample_policy)", "fire", "C02.4"),
+    ("policy-call-sample-net", _MF, "            policy_offspring, mut_method\n", "            sample_policy, mut_method\n", "fire", "C02.4"),
+    ("store-old-wrapper-name", _MF, "setattr(individual, config.name, offspring_opt)", "setattr(individual, opt.lr_name, offspring_opt)", "fire", "C02.2"),
 ]
